@@ -223,3 +223,34 @@ Example gtb_swo : strict_weak_order (fun a b => Z.ltb b a).
 Proof. repeat split; intros; lia. Qed.
 Example mod3_swo : strict_weak_order (fun a b => Z.ltb (a mod 3) (b mod 3)).
 Proof. repeat split; intros; lia. Qed.
+
+(* ---- NewHeapFromIterator: a heap built from any consumed prefix is a heap ---- *)
+Lemma heap_from_list_gen (lt : Z -> Z -> bool) :
+  strict_weak_order lt -> forall l h, sorted lt h ->
+    sorted lt (fold_left (fun h v => heap_push lt v h) l h) /\
+    Permutation (fold_left (fun h v => heap_push lt v h) l h) (h ++ l).
+Proof.
+  intros (H1 & H2 & H3). induction l as [|v l IH]; intros h S; simpl.
+  - rewrite app_nil_r. split; [exact S|reflexivity].
+  - destruct (IH (heap_push lt v h) (heap_push_sorted lt H1 H2 v h S)) as [S' P]. split; [exact S'|].
+    rewrite P. rewrite (heap_push_perm lt v h). simpl. apply Permutation_middle.
+Qed.
+
+Lemma heap_from_list_sorted_perm (lt : Z -> Z -> bool) :
+  strict_weak_order lt -> forall l, sorted lt (heap_from_list lt l) /\ Permutation (heap_from_list lt l) l.
+Proof. intros W l. apply (heap_from_list_gen lt W l []). exact I. Qed.
+
+(* ... and stays one under every later push/pop sequence *)
+Lemma heap_from_list_pops_minimal (lt : Z -> Z -> bool) :
+  strict_weak_order lt -> forall l ops, pops_minimal lt (heap_from_list lt l) ops.
+Proof.
+  intros W l ops. destruct (heap_from_list_sorted_perm lt W l) as [S _]. destruct W as (H1 & H2 & H3).
+  apply heap_pops_minimal; auto.
+Qed.
+
+Lemma heap_from_list_conserves (lt : Z -> Z -> bool) :
+  strict_weak_order lt -> forall l ops,
+    Permutation (somes (fst (heap_run lt (heap_from_list lt l) ops)) ++ snd (heap_run lt (heap_from_list lt l) ops)) (pushed ops ++ l).
+Proof.
+  intros W l ops. rewrite heap_run_conserves. apply Permutation_app_head. apply (heap_from_list_sorted_perm lt W l).
+Qed.
